@@ -201,16 +201,19 @@ def run_cstr(ck, rng):
     """C strings: c.AllocaCStr (runtime CStrCopy) -> C strlen -> c.GoString (StringFromCStr), byte for byte"""
     L = ck._llgo
     cases = [b"", b"a", b"hello", b"ab\x00cd", b"\x00x", b"h\xc3\xa9\xe4\xb8\x96\xff", b"\x01\x7f\x80\xfe\xff",
-             b"x" * 255, b"y" * 256, b"z" * 4097, b"tail\x00", b"\x00"]
+             b"x" * 255, b"y" * 256, b"z" * 4097, b"", b"tail\x00", b"\x00", b""]
     for _ in range({"quick": 30, "thorough": 300}[ck.tier]):
         n = rng.choice([1, 2, 3, 7, 8, 9, 15, 16, 17, 31, 33, 64, 100])
         bs = bytes(rng.choice([0, 1, 65, 97, 127, 128, 255, 32, 10]) if rng.random() < 0.15 else rng.randrange(1, 256) for _ in range(n))
         cases.append(bs)
     lit = lambda b: '"' + "".join("\\x%02x" % x for x in b) + '"'
     src = ("package main\n\nimport (\n\t_ \"unsafe\"\n\n\t\"github.com/goplus/lib/c\"\n)\n\n//go:linkname cstrlen C.strlen\nfunc cstrlen(s *c.Char) uintptr\n\n"
+           "var sink byte\n\n// leaves non-zero bytes where the next call's frame (and its alloca'd C string) will be\n"
+           "func dirty() {\n\tvar b [8192]byte\n\tfor i := range b {\n\t\tb[i] = 0xAA\n\t}\n\tsink = b[k8(100)]\n}\n\n"
+           "func k8(i int) int { return i }\n\n"
            "func show(k int, s string) {\n\tp := c.AllocaCStr(s)\n\tn := cstrlen(p)\n\tg := c.GoString(p)\n"
            "\tprint(\"S \", k, \" \", int(n))\n\tfor i := 0; i < len(g); i++ {\n\t\tprint(\" \", g[i])\n\t}\n\tprintln()\n}\n\n"
-           "func main() {\n" + "".join("\tshow(%d, %s)\n" % (i, lit(b)) for i, b in enumerate(cases)) + "\tprintln(\"DONE\")\n}\n")
+           "func main() {\n" + "".join("\tdirty()\n\tshow(%d, %s)\n" % (i, lit(b)) for i, b in enumerate(cases)) + "\tprintln(\"DONE\")\n}\n")
     d = os.path.join(ck.work, "prog_cstr")
     os.makedirs(d, exist_ok=True)
     open(os.path.join(d, "main.go"), "w").write(src)
@@ -258,7 +261,9 @@ def run(ck):
 
     rng = random.Random(ck.seed * 104729 + 9)
     nrand = {"quick": 40, "thorough": 400}[ck.tier]
-    shapes = progs.boundary_shapes() + [progs.random_shape(rng) for _ in range(nrand)]
+    nnest = {"quick": 20, "thorough": 200}[ck.tier]
+    shapes = progs.boundary_shapes() + [progs.random_shape(rng) for _ in range(nrand)] + \
+        [progs.random_small_nested(rng) for _ in range(nnest)]
     extra = progs.gti_only_shapes()
     model = model_eval(ck, shapes + extra)
     if model is None:
